@@ -260,6 +260,18 @@ def keyword_bridge(ctx, d, goals, violate):
     return stats
 
 
+GUARD = """#[diplomat::bridge]
+mod ffi {
+    #[diplomat::attr(auto, namespace = "geo")]
+    pub struct Point { pub x: i32 }
+    #[allow(non_camel_case_types)]
+    pub struct geo_Point { pub y: f64 }
+    pub struct Both { pub a: Point, pub b: geo_Point }
+    impl Both { pub fn sum(self) -> f64 { self.a.x as f64 + self.b.y } }
+}
+"""
+
+
 def check(ctx, replay=None):
     build_harness()
     phase = standard_proof_phase(ctx, PROP, ["theories/Properties/C09.v"])
@@ -429,6 +441,18 @@ def check(ctx, replay=None):
         if r.returncode != 0:
             ctx.violation("keyword-escape-collision", {"lib_rs": COLLIDE, "what": "parameters `int` and `int_` of one method are both emitted as `int_`: K.h does not compile",
                                                        "compiler": r.stderr[-600:]}, True)
+    # 4b. include-guard collision between a namespace directory and an underscore in a type name (recorded finding when present)
+    gpath = os.path.join(d, "guard.rs")
+    open(gpath, "w").write(GUARD)
+    q = e2e.run_tool("cpp", gpath, os.path.join(d, "out_guard_cpp"))
+    if q.returncode == 0:
+        for std in ("c++17", "c++20"):
+            r = e2e.syntax_only(os.path.join(d, "out_guard_cpp", "Both.hpp"), [os.path.join(d, "out_guard_cpp")], std, cxx=True)
+            compiles += 1
+            if r.returncode != 0:
+                ctx.violation("cpp-include-guard-collision", {"lib_rs": GUARD, "what": "geo/Point.d.hpp and geo_Point.d.hpp share the include guard geo_Point_D_HPP: Both.hpp, which holds "
+                                                              "both types by value, does not compile", "compiler": r.stderr[-600:]}, True)
+                break
     dd, lib, p = e2e.bridge_crate("c09_this", THIS, crate_types=("rlib",))
     q = e2e.run_tool("c", os.path.join(dd, "src/lib.rs"), os.path.join(d, "out_this_c"))
     compiles += 1
